@@ -70,6 +70,16 @@ var rfFamilies = []rfFamily{
 			return 86400 + a*1e4*0.8*math.Pow(x, -0.2)
 		}
 	}},
+	{"triple", true, func(a, b, c float64) (func(float64) float64, func(float64) float64) {
+		// a triple root: Newton's step only contracts by 2/3, the secant point sticks to the near end -- the halving
+		// trial is what guarantees progress
+		return func(x float64) float64 { return a * (x - b) * (x - b) * (x - b) }, func(x float64) float64 { return 3 * a * (x - b) * (x - b) }
+	}},
+	{"expsat", true, func(a, b, c float64) (func(float64) float64, func(float64) float64) {
+		// steep, convex, saturating: exp(k (x - r)) - 1 on [0, 1] with the root close to the upper end
+		k, r := 20+60*(a-0.2)/3, 0.97+0.025*(c-0.1)/2
+		return func(x float64) float64 { return math.Exp(k*(x-r)) - 1 }, func(x float64) float64 { return k * math.Exp(k*(x-r)) }
+	}},
 	{"sine", false, func(a, b, c float64) (func(float64) float64, func(float64) float64) {
 		return func(x float64) float64 { return math.Sin(a*x) + 0.3*(x-b) }, func(x float64) float64 { return a*math.Cos(a*x) + 0.3 }
 	}},
@@ -128,6 +138,9 @@ func rootfindEngine(args []string) error {
 			minX = 0
 			maxX = 50 + r.Float64()*100
 		}
+		if fam.name == "expsat" {
+			minX, maxX = 0, 1
+		}
 		if !(f(minX) <= 0 && f(maxX) >= 0) {
 			continue
 		}
@@ -141,6 +154,30 @@ func rootfindEngine(args []string) error {
 		tol := []float64{1e-3, 1e-6, 1e-9, 1e-12, 0.5}[r.Intn(5)]
 		conv := []float64{1e-8, 1e-3, 1e-12, 0}[r.Intn(4)]
 		maxIter := 1 + r.Intn(40)
+		if fam.name == "expsat" && r.Intn(2) == 0 {
+			maxIter = 2 + r.Intn(4) // the budget runs out long before the tolerance is met
+		}
+		// how many steps plain interval halving needs from this bracket to meet the tolerance (0: not within 300)
+		bisect := 0
+		{
+			lo, hi := minX, maxX
+			for k := 1; k <= 300; k++ {
+				mid := hi - (hi-lo)*0.5
+				v := f(mid)
+				if math.Abs(v) < tol {
+					bisect = k
+					break
+				}
+				if v < 0 {
+					lo = mid
+				} else {
+					hi = mid
+				}
+			}
+		}
+		if fam.name == "triple" && bisect > 0 && r.Intn(2) == 0 {
+			maxIter = bisect + 2 + r.Intn(bisect/2+1) // a budget that just suffices for halving
+		}
 		dxMode := r.Intn(4) // 0: true derivative, 1: nil, 2: zero derivative, 3: wrong derivative
 		if dfx == nil {
 			dxMode = 1
@@ -203,7 +240,7 @@ func rootfindEngine(args []string) error {
 				}
 			}
 		}
-		enc.Encode(map[string]interface{}{"ev": "start", "maxiter": maxIter, "near": near, "min": rankOf(xsS, minX), "max": rankOf(xsS, maxX), "init": rankOf(xsS, initX),
+		enc.Encode(map[string]interface{}{"ev": "start", "maxiter": maxIter, "bisect": bisect, "near": near, "min": rankOf(xsS, minX), "max": rankOf(xsS, maxX), "init": rankOf(xsS, initX),
 			"zero": rankOf(fsS, 0), "tol": rankOf(fsS, tol), "mono": fam.mono, "hasdx": di != nil, "family": fam.name,
 			"raw": []float64{a, b, c, initX, minX, maxX, tol, conv, float64(maxIter), float64(dxMode)}})
 		for _, e := range log {
@@ -243,6 +280,8 @@ func piecewiseEngine(args []string) error {
 	}
 	defer fh.Close()
 	s := &summary{Engine: "piecewise"}
+	reuseX, reuseY := map[int]data.ND1Float64{}, map[int]data.ND1Float64{}
+	prevByLen := map[int]*pwCase{}
 	f64 := factoryByName("float64")
 	sc := bufio.NewScanner(fh)
 	sc.Buffer(make([]byte, 1<<20), 1<<24)
@@ -312,6 +351,51 @@ func piecewiseEngine(args []string) error {
 				check(float64(x2)/2*unit, want, fmt.Sprintf("%v x %v", float64(x2)/2, unit))
 			}
 		}
+		// the same queries once more through table objects that are REUSED for every table of this length (knots and
+		// values rewritten in place): a lookup may not remember anything about an array beyond the call
+		L := len(c.P.Xs)
+		if reuseX[L] == nil {
+			reuseX[L], reuseY[L] = data.NewArray1DFloat64(L), data.NewArray1DFloat64(L)
+		}
+		for i := range c.P.Xs {
+			reuseX[L].Set1(i, c.P.Xs[i])
+			reuseY[L].Set1(i, c.P.Ys[i])
+		}
+		xs, ys = reuseX[L], reuseY[L]
+		for k, want := range c.P.Queries {
+			var x2 int
+			fmt.Sscan(k, &x2)
+			check(float64(x2)/2, want, fmt.Sprintf("%v (table object reused, rewritten in place)", float64(x2)/2))
+		}
+		// ... and the SAME query twice in a row with the table rewritten in between: the previous table of this length,
+		// then this one
+		if pc, ok := prevByLen[L]; ok {
+			nq := 0
+			for k, want := range c.P.Queries {
+				pw, both := pc.P.Queries[k]
+				if !both || nq >= 6 {
+					continue
+				}
+				nq++
+				var x2 int
+				fmt.Sscan(k, &x2)
+				for i := range pc.P.Xs {
+					reuseX[L].Set1(i, pc.P.Xs[i])
+					reuseY[L].Set1(i, pc.P.Ys[i])
+				}
+				saveXs, saveYs := c.P.Xs, c.P.Ys
+				c.P.Xs, c.P.Ys = pc.P.Xs, pc.P.Ys
+				check(float64(x2)/2, pw, fmt.Sprintf("%v (same table object, previous content)", float64(x2)/2))
+				c.P.Xs, c.P.Ys = saveXs, saveYs
+				for i := range c.P.Xs {
+					reuseX[L].Set1(i, c.P.Xs[i])
+					reuseY[L].Set1(i, c.P.Ys[i])
+				}
+				check(float64(x2)/2, want, fmt.Sprintf("%v (same table object rewritten in place, same query as just before)", float64(x2)/2))
+			}
+		}
+		cc := c
+		prevByLen[L] = &cc
 		if n%700 == 1 {
 			var cj interface{}
 			json.Unmarshal([]byte(line), &cj)
